@@ -45,6 +45,12 @@ func Decode(r io.Reader) p.DpFactory {
 		var m map[string]any
 		decod := json.NewDecoder(r)
 		err := decod.Decode(&m)
+		if err == nil {
+			// the body must be ONE JSON value: anything but white space after it makes it malformed
+			if _, terr := decod.Token(); terr != io.EOF {
+				err = errors.New("invalid json body: unexpected data after the top-level value")
+			}
+		}
 		if err != nil {
 			return nil, &p.ZogIssue{Code: zconst.IssueCodeInvalidJSON, Err: err}
 		}
